@@ -492,6 +492,7 @@ impl Monitor for C06 {
             ("corpus", tier.pick(400_000, 8_000_000)),
             ("api", tier.pick(1_000_000, 20_000_000)),
             ("big", tier.pick(30_000, 1_500_000)),
+            ("bytesweep", tier.pick(5_000, 300_000)),
         ]
     }
 
@@ -513,6 +514,15 @@ impl Monitor for C06 {
                 o.start = StartSel::Eth;
                 let case = gen::gen_case(rng, &o);
                 self.starting_points(rep, &case);
+            }
+            "bytesweep" => {
+                for c in gen::bytesweep(rng) {
+                    rep.count("bytesweep_cases");
+                    self.starting_points(rep, &c);
+                    if c.start == Start::Ip {
+                        self.ip_siblings(rep, &c.bytes);
+                    }
+                }
             }
             "big" => {
                 let mut o = if rng.bool() { GenOpts::clean() } else { GenOpts::hostile() };
